@@ -75,6 +75,7 @@ type Scratch struct {
 	OutDir     string
 	HarnessDir string // /verif/harness
 	ModCache   string
+	WithTests  bool // passthrough validation: instrument the library's own tests too
 }
 
 // BuildScratch writes the instrumented library, context package and harness plus a go.mod into
@@ -89,8 +90,13 @@ func BuildScratch(s Scratch) (map[string]int, error) {
 		}
 	}
 	// 1. the library under test
+	var libImp types.Importer
+	if s.WithTests {
+		libImp = &chainImporter{fset: fset, std: StdImporter(fset), known: map[string]*types.Package{},
+			dirs: map[string]string{"github.com/go-test/deep": filepath.Join(s.ModCache, "github.com/go-test/deep@v1.1.1")}}
+	}
 	lib, err := Instrument(fset, Options{SrcDir: s.RepoDir, OutDir: filepath.Join(s.OutDir, "bigbuff"),
-		PkgPath: "github.com/joeycumines/go-bigbuff", ImportMap: imap, Lib: true})
+		PkgPath: "github.com/joeycumines/go-bigbuff", ImportMap: imap, Lib: true, WithTests: s.WithTests, Importer: libImp})
 	if err != nil {
 		return nil, fmt.Errorf("instrument library: %w", err)
 	}
@@ -157,9 +163,14 @@ var (
 
 go 1.26
 
+// the library is written against go 1.23 semantics: keep math/rand.Seed effective (only matters to the
+// passthrough validation of the library's own tests)
+godebug randseednop=0
+
 require (
 	bbsim v0.0.0
 	github.com/anishathalye/porcupine v1.3.0
+	github.com/go-test/deep v1.1.1
 )
 
 replace bbsim => %s
